@@ -784,21 +784,21 @@ class C04a(Monitor):
         if not _alive(r, "Tank") or not _alive(r, "Filtration"):
             self.below_since = None
             return
-        st = s.state("Tank")
-        if st in ("low", "normal", "high"):
-            self.filled = True
-        if st == "halt" and s.state("Filtration") == "halt":
-            self.filled = False  # a restart begins with a new initial fill
-        low = self._too_low(r)
+        st, f = s.state("Tank"), s.state("Filtration")
         now = r.world.now_us
-        if low and self.filled:
-            if self.below_since is None:
+        # an episode: the level reads too low while the tank controller is RUNNING past its initial fill (low / normal / high) and
+        # the system is not halted; it ends when the level recovers or the system is halted (a restart begins with a new initial
+        # fill, during which a low level is expected: the 2 h limit of C05 applies there)
+        if f == "halt" or not self._too_low(r):
+            self.below_since = None
+            return
+        if self.below_since is None:
+            if st in ("low", "normal", "high"):
                 self.below_since = now
                 self.lagged = False
-            elif now - self.below_since > 33_000_000 and not self.lagged and s.state("Filtration") != "halt":
-                r.report("C04", "not-halted-with-tank-too-low:" + st, f"the tank level has read below too_low (or the sensor has been dead) for {(now - self.below_since) / 1e6:.0f} s after the initial fill; tank controller: {st}, filtration: {s.state('Filtration')} (not halted)")
-        else:
-            self.below_since = None
+            return
+        if now - self.below_since > 33_000_000 and not self.lagged:
+            r.report("C04", "not-halted-with-tank-too-low:" + st, f"the tank level has read below too_low (or the sensor has been dead) for {(now - self.below_since) / 1e6:.0f} s, starting while the tank controller was running past its initial fill; tank controller now: {st}, filtration: {f} (not halted)")
 
 
 SETTLED_MONITORS = [C04a, C01, C01b, C02, C05i, C06a, C07a, C08, C12a, C12b, C13a, C13c, C15a, C16a, C17a, Liveness, Timed, PhaseTimes, WinterCycle, BackwashDue]
